@@ -952,9 +952,61 @@ fn gen_zero_step(rng: &mut Rng) -> (Program, Vec<&'static str>) {
     (prog, vec!["zero-step"])
 }
 
+/// loops that are NOT properly nested: FOR and NEXT of three variables in any order, with jumps to an outer NEXT and early
+/// RETURNs out of a loop body - a NEXT that goes round forgets every loop opened inside it, one that falls through forgets
+/// itself too, a NEXT for a forgotten loop is NEXT WITHOUT FOR.  A counter ends runaway programs.
+fn gen_misnested(rng: &mut Rng) -> (Program, Vec<&'static str>) {
+    if rng.chance(1, 2) {
+        // the shapes in which a loop forgotten by an outer NEXT that went round matters afterwards: its own NEXT is reached
+        // (NEXT WITHOUT FOR), or a new loop is opened and the forgotten variable is used again inside it
+        let f = |v: &str, to: f64| S::For(v.into(), E::Num(1.0), E::Num(to), None);
+        let n = |v: &str| S::Next(v.into());
+        let p = |t: &str| S::Print(vec![(E::Str(t.into()), ';'), (E::Var("I".into()), ';'), (E::Var("J".into()), ';'), (E::Var("K".into()), ';')], false);
+        let jump = |v: &str, c: f64, line: u64| S::If(E::Bin("=", Box::new(E::Var(v.into())), Box::new(E::Num(c))), Then::Line(line), None);
+        let to = rng.pick(&[2.0, 3.0]);
+        let prog: Program = match rng.below(4) {
+            0 => vec![(10, vec![f("I", to)]), (20, vec![jump("I", 2.0, 50)]), (30, vec![f("J", 2.0)]), (40, vec![p("a"), n("I")]), (50, vec![p("b"), n("J")]), (60, vec![p("end")])],
+            1 => vec![(10, vec![f("I", to)]), (20, vec![jump("I", 2.0, 60)]), (30, vec![f("J", 2.0)]), (40, vec![n("I")]), (60, vec![f("K", 2.0)]), (70, vec![f("J", 2.0)]), (80, vec![p("j"), n("J")]), (90, vec![p("k"), n("K")]), (100, vec![p("ok")])],
+            2 => vec![(10, vec![f("I", to)]), (20, vec![jump("I", 2.0, 50)]), (30, vec![S::Gosub(100)]), (40, vec![n("I")]), (50, vec![p("b"), n("J")]), (60, vec![S::End]), (100, vec![f("J", 3.0)]), (110, vec![S::Return])],
+            _ => vec![(10, vec![f("I", to)]), (20, vec![f("J", 2.0)]), (30, vec![f("K", 2.0)]), (40, vec![jump("K", 1.0, 70)]), (50, vec![p("k"), n("K")]), (60, vec![S::End]), (70, vec![p("i"), n("I")]), (80, vec![p("after"), n("K")]), (90, vec![n("J")])],
+        };
+        return (prog, vec!["misnested-shapes"]);
+    }
+    let vars = ["I", "J", "K"];
+    let mut prog: Program = vec![(5, vec![S::Let("C".into(), None, E::Num(0.0))])];
+    let n = rng.range(5, 11);
+    let mut ln = 10u64;
+    let guard = || S::If(E::Bin(">", Box::new(E::Var("C".into())), Box::new(E::Num(40.0))), Then::Line(900), None);
+    for _ in 0..n {
+        let v = rng.pick(&vars).to_string();
+        let stmt = match rng.below(10) {
+            0..=3 => S::For(v, E::Num(1.0), E::Num(rng.pick(&[1.0, 2.0, 3.0])), None),
+            4..=7 => S::Next(v),
+            8 => S::If(E::Bin("=", Box::new(E::Var(v)), Box::new(E::Num(rng.pick(&[1.0, 2.0])))), Then::Line(10 + 10 * rng.below(n) as u64), None),
+            _ => S::Gosub(800),
+        };
+        let count = S::Let("C".into(), None, E::Bin("+", Box::new(E::Var("C".into())), Box::new(E::Num(1.0))));
+        let show = S::Print(vec![(E::Var("I".into()), ';'), (E::Var("J".into()), ';'), (E::Var("K".into()), ';')], false);
+        // (a false IF skips the rest of its line, so the guard stands on a line of its own)
+        prog.push((ln, vec![guard()]));
+        prog.push((ln + 5, vec![count, show, stmt]));
+        ln += 10;
+    }
+    prog.push((ln, vec![S::Print(vec![(E::Str("end".into()), ';')], false)]));
+    prog.push((790, vec![S::End]));
+    // a subroutine that opens a loop and returns out of its middle
+    prog.push((800, vec![S::For("K".into(), E::Num(1.0), E::Num(2.0), None)]));
+    prog.push((810, vec![S::Return]));
+    prog.push((900, vec![S::Print(vec![(E::Str("cut".into()), ';')], false)]));
+    (prog, vec!["misnested-loops"])
+}
+
 pub fn gen_program(rng: &mut Rng, allow_else_resume: bool) -> (Program, Vec<&'static str>) {
     if rng.chance(1, 25) {
         return gen_many_loops(rng);
+    }
+    if rng.chance(1, 8) {
+        return gen_misnested(rng);
     }
     if rng.chance(1, 25) {
         return gen_zero_step(rng);
